@@ -160,6 +160,10 @@ def discharge(ob: Ob, timeout_s: int, use_cvc5=True):
     #     the solver to build interpretations for quantified premises that have nothing to do with the failure
     if r == z3.unknown:
         rr = _refine(ob.assumptions, to_z3(goal), min(timeout_s, 12))
+        if rr is None:
+            rr = _refine(ob.assumptions, to_z3(goal), min(timeout_s, 8), linearise=True)
+            if rr is not None and rr[0] != z3.sat:
+                rr = None       # `unsat` under the extra pins proves nothing
         if rr is not None:
             r, s = rr
             if r == z3.unsat:
@@ -266,10 +270,47 @@ def discharge(ob: Ob, timeout_s: int, use_cvc5=True):
         ob.detail = s.reason_unknown()
 
 
-def _refine(assumptions, goal, budget_s):
+def _nonlinear_factors(exprs):
+    """Ground real-valued terms that occur as a factor of a product of two non-constant terms or as a divisor."""
+    out, seen = {}, set()
+    todo = list(exprs)
+    while todo:
+        x = todo.pop()
+        if x.get_id() in seen:
+            continue
+        seen.add(x.get_id())
+        if z3.is_quantifier(x):
+            continue            # only ground occurrences can be pinned
+        if z3.is_app(x):
+            k = x.decl().kind()
+            args = x.children()
+            cand = []
+            if k == z3.Z3_OP_MUL:
+                nc = [a for a in args if not (z3.is_int_value(a) or z3.is_rational_value(a))]
+                if len(nc) >= 2:
+                    cand = nc
+            elif k in (z3.Z3_OP_DIV, z3.Z3_OP_IDIV, z3.Z3_OP_MOD) and len(args) == 2 and \
+                    not (z3.is_int_value(args[1]) or z3.is_rational_value(args[1])):
+                cand = [args[1]]
+            for a in cand:
+                if z3.is_real(a) and z3.is_app(a) and a.decl().kind() == z3.Z3_OP_UNINTERPRETED:
+                    out[a.get_id()] = a
+            todo.extend(args)
+    return list(out.values())
+
+
+def _refine(assumptions, goal, budget_s, linearise=False):
     from .rel import EXT
     prem = [a for a in assumptions if is_z3(a)]
-    keep = {a.get_id() for a in relevant(prem, goal, 1)}
+    pins = []
+    if linearise:
+        # counter-model search only: real factors of non-linear products are tried at the value 1 (a constraint that can
+        # only remove models) - the remaining arithmetic is linear and the solver answers at once
+        pins = [t == 1 for t in _nonlinear_factors(prem + [goal])][:12]
+        if not pins:
+            return None
+    # start from the quantifier-free premises next to the goal; quantified ones join when the model found needs them
+    keep = {a.get_id() for a in relevant(prem, goal, 1) if not _has_quantifier(a)}
     deadline = time.time() + budget_s
     # concrete interpretations of some library functions (sound for refutation: they only remove models)
     allsyms = set(symbols(goal))
@@ -288,6 +329,8 @@ def _refine(assumptions, goal, budget_s):
         for a in extra:
             sv.add(a)
         for h in hints:
+            sv.add(h)
+        for h in pins:
             sv.add(h)
         sv.add(z3.Not(goal))
         return sv.check(), sv
